@@ -99,6 +99,11 @@ func c09Variants(i int, g *gspec.Grammar) []batch.Variant {
 		h := len(g.Entries) / 2
 		alt = []string{"-alternate-entrypoints=" + joinComma(g.Entries[:h]), "-alternate-entrypoints=" + joinComma(g.Entries[h:])}
 	}
+	if i%5 == 2 {
+		// both with -optimize-basic-latin: whatever the builder derives from a class must be
+		// derived from the class the optimizer leaves behind
+		alt = append(alt, "-optimize-basic-latin")
+	}
 	return []batch.Variant{{Name: "U", Flags: append([]string{}, alt...)}, {Name: "O", Flags: append([]string{"-optimize-grammar"}, alt...)}}
 }
 
